@@ -17,6 +17,7 @@ import (
 	"math/big"
 	"time"
 
+	g "github.com/zenon-network/go-zenon/chain/genesis/mock"
 	"github.com/zenon-network/go-zenon/chain/nom"
 	"github.com/zenon-network/go-zenon/common/db"
 	"github.com/zenon-network/go-zenon/common/types"
@@ -46,7 +47,11 @@ func shrinkLocks() {
 	constants.FuseExpiration = 2
 	constants.SentinelLockTimeWindow = 30
 	constants.SentinelRevokeTimeWindow = 20
+	constants.PillarEpochLockTime = 30
+	constants.PillarEpochRevokeTime = 20
 }
+
+var pillarNames = []string{g.Pillar1Name, g.Pillar2Name, g.Pillar3Name, "TEST-pillar-four"}
 
 // nthEntry returns the id (send hash) of the B-th successful deposit call with selector selDeposit made to `contract`,
 // in chain order (confirmed ledger), or an unknown hash.
@@ -90,6 +95,23 @@ func init() {
 		return &nom.AccountBlock{BlockType: nom.BlockTypeUserSend, Address: ops.Users[o.A].Address, ToAddress: types.PillarContract,
 			TokenStandard: types.ZnnTokenStandard, Amount: big.NewInt(o.V * 100000000), Data: definition.ABIPillars.PackMethodPanic(definition.DepositQsrMethodName)}
 	}
+	// pillar collateral: A = caller, B = index into pillarNames
+	ops.Calls["pillar-register"] = func(o ops.Op) *nom.AccountBlock {
+		u := ops.Users[o.A].Address
+		return &nom.AccountBlock{BlockType: nom.BlockTypeUserSend, Address: u, ToAddress: types.PillarContract,
+			TokenStandard: types.ZnnTokenStandard, Amount: new(big.Int).Set(constants.PillarStakeAmount),
+			Data: definition.ABIPillars.PackMethodPanic(definition.RegisterMethodName, pillarNames[o.B], u, u, uint8(0), uint8(100))}
+	}
+	ops.Calls["pillar-revoke"] = func(o ops.Op) *nom.AccountBlock {
+		return &nom.AccountBlock{BlockType: nom.BlockTypeUserSend, Address: ops.Users[o.A].Address, ToAddress: types.PillarContract,
+			TokenStandard: types.ZnnTokenStandard, Amount: big.NewInt(0), Data: definition.ABIPillars.PackMethodPanic(definition.RevokeMethodName, pillarNames[o.B])}
+	}
+	ops.Calls["pillar-update"] = func(o ops.Op) *nom.AccountBlock { // same producer and reward address, other percentages
+		u := ops.Users[o.A].Address
+		return &nom.AccountBlock{BlockType: nom.BlockTypeUserSend, Address: u, ToAddress: types.PillarContract,
+			TokenStandard: types.ZnnTokenStandard, Amount: big.NewInt(0),
+			Data: definition.ABIPillars.PackMethodPanic(definition.UpdatePillarMethodName, pillarNames[o.B], u, u, uint8(10), uint8(90))}
+	}
 	ops.Calls["sentinel-withdraw-qsr"] = func(o ops.Op) *nom.AccountBlock {
 		return &nom.AccountBlock{BlockType: nom.BlockTypeUserSend, Address: ops.Users[o.A].Address, ToAddress: types.SentinelContract,
 			TokenStandard: types.ZnnTokenStandard, Amount: big.NewInt(0), Data: definition.ABISentinel.PackMethodPanic(definition.WithdrawQsrMethodName)}
@@ -107,7 +129,7 @@ func init() {
 		},
 		Assumptions: []string{
 			"mock genesis, live-network regime; lock periods shrunk (stake unit 20 s, fusion expiration 2 momentums, sentinel lock/revoke windows 30 s / 20 s) — the release logic is parametric in these constants",
-			"families covered: stake, plasma fusions, sentinel collateral and QSR deposit, pillar QSR deposit (pillar collateral is static in the explored histories), HTLC (spork created and activated by the base prefix, SporkMinHeightDelay shrunk to 2); liquidity stake and bridge unwrap are not covered by this check",
+			"families covered: stake, plasma fusions, sentinel collateral and QSR deposit, pillar QSR deposit, pillar collateral (Register / Revoke / UpdatePillar on genesis pillars and a newly registered one; pillar windows 30 s / 20 s), HTLC (spork created and activated by the base prefix, SporkMinHeightDelay shrunk to 2); liquidity stake and bridge unwrap are not covered by this check",
 			"liabilities are recomputed from the ledger alone by replaying each contract's receive blocks (audit.go)",
 		},
 		Run: run,
@@ -169,9 +191,30 @@ func families(thorough bool) []family {
 		{K: "Call", S: "pillar-withdraw-qsr", A: 3},
 		{K: "Call", S: "pillar-deposit-znn", A: 3, V: 10}, // deposit attempt in the wrong token
 	}}
-	for _, f := range []*family{&stake, &plasma, &sent, &pillar} {
+	// pillar collateral: the three genesis pillars (owners = users 10..12, registered at genesis time: with the shrunk
+	// windows they can be revoked while the acknowledged momentum's time is 30..49 s modulo 50) and a fourth one that user 5
+	// (Pillar4's key: 16000 ZNN, 200000 QSR) can register after depositing the 150000 QSR registration cost
+	coll := family{name: "pillar-collateral", alpha: []ops.Op{
+		M,
+		{K: "Call", S: "pillar-revoke", A: 10, B: 0},  // owner
+		{K: "Call", S: "pillar-revoke", A: 11, B: 0},  // stranger (owner of another pillar)
+		{K: "Call", S: "pillar-update", A: 10, B: 0},  // owner changes the reward percentages
+		{K: "Call", S: "pillar-register", A: 5, B: 3}, // with or without the deposit
+		{K: "Call", S: "pillar-revoke", A: 5, B: 3},
+		{K: "Call", S: "pillar-deposit-qsr", A: 5, V: 150000},
+		{K: "Call", S: "pillar-withdraw-qsr", A: 5},
+	}}
+	for _, f := range []*family{&stake, &plasma, &sent, &pillar, &coll} {
 		f.bases = []hx.Base{{Name: f.name + "/genesis"}}
 	}
+	coll.bases = append(coll.bases,
+		// the genesis pillars' revoke window is about to open (next momentum: t = 30 s)
+		hx.Base{Name: "pillar-collateral/window-opens", Prefix: []ops.Op{M, M}},
+		// a fourth pillar registered (t = 30 s), its own window opens three momentums later
+		hx.Base{Name: "pillar-collateral/registered", Prefix: []ops.Op{
+			{K: "Call", S: "pillar-deposit-qsr", A: 5, V: 150000}, M, M, {K: "Call", S: "pillar-register", A: 5, B: 3}, M, M, M,
+		}},
+	)
 	// non-initial states: an entry that is already mature, one that is not, one already released
 	stake.bases = append(stake.bases, hx.Base{Name: "stake/entries", Prefix: []ops.Op{
 		{K: "Call", S: "stake", A: 1, V: 10, B: 1}, M, M, {K: "Call", S: "stake", A: 2, V: 20, B: 6}, M, M, M,
@@ -185,7 +228,7 @@ func families(thorough bool) []family {
 	pillar.bases = append(pillar.bases, hx.Base{Name: "pillar-qsr/deposited", Prefix: []ops.Op{
 		{K: "Call", S: "pillar-deposit-qsr", A: 1, V: 10}, M, M,
 	}})
-	return []family{stake, plasma, sent, pillar, htlcFamily()}
+	return []family{stake, plasma, sent, pillar, coll, htlcFamily()}
 }
 
 func knownAddrs() []types.Address {
